@@ -366,8 +366,10 @@ func c13text(c *engine.Ctx, env *zygo.Zlisp, text string, twoCuts bool) {
 // ---- histories: earlier parses must not change how a later text is read
 
 var c13residue = []string{`"abc`, "`raw", "/* open", "1e", "-", "a:", "~", "(+ 1 2)", ")", "(open 1", "'", "(+ 1 2) -", "ok 1 2", "", "#", "1e-", "x -1", "/",
-	"(def x [1 2", "((", "(a /* c", "(f {a b", "[[1] [2", "(a \"s"}
-var c13probes = []string{"-1 ", "1e-3 ", "a:b ", "(list -1 2)", "~x ", "- 1 ", "(a -1)", "x:=1 ", "1 -1 ", "/ 2 "}
+	"(def x [1 2", "((", "(a /* c", "(f {a b", "[[1] [2", "(a \"s",
+	// texts that end inside an escape sequence, or hold a malformed one
+	`"ab\x4`, `"\u00e`, `'\x4`, `"\xZZ"`, `"\x41\x4`}
+var c13probes = []string{"-1 ", "1e-3 ", "a:b ", "(list -1 2)", "~x ", "- 1 ", "(a -1)", "x:=1 ", "1 -1 ", "/ 2 ", `"\x41\u00e9" `, `'\x41' `}
 
 func c13history(c *engine.Ctx, hist []int, record bool) string {
 	env := zygo.NewZlisp()
@@ -515,7 +517,7 @@ func init() {
 		Rule: "texts = the 110 corpus scripts + a hand list + every string of <=3 (thorough 4) tokens over a 40-token alphabet joined with and without blanks; for every text: whole parse, parse with a trailing newline, " +
 			"pause-iff-unfinished against an independent prefix scanner, every 1-cut (all rune positions) and, for texts <=60 runes (thorough 200), every 2-cut, pieces delivered only when the parser pauses (REPL protocol); " +
 			"plus 13 multi-line forms (raw strings, strings, block comments, lists, infix) with 0, 1 or 2 empty lines at every line break, typed into the real REPL loop of cmd/zygo on stdin and compared with the whole-text evaluation; " +
-			"plus BFS over histories of 24 residue-leaving inputs (depth 3, thorough 4) with 10 probe texts compared against a fresh interpreter, states keyed by the lexer/parser residue; distinct_nontrivial = distinct (result kind, expression list) of texts",
+			"plus BFS over histories of 29 residue-leaving inputs (incl. texts ending inside an escape sequence; depth 3, thorough 4) with 12 probe texts compared against a fresh interpreter, states keyed by the lexer/parser residue; distinct_nontrivial = distinct (result kind, expression list) of texts",
 		Assumptions: []string{"a cut at which the parser does not pause is a complete prefix and is judged as a text of its own, not by the chunking clause",
 			"pause-iff is not judged for texts ending inside a character literal or with mismatched brackets, nor for texts that raise a hard error"},
 		Run: func(c *engine.Ctx) {
